@@ -17,6 +17,7 @@ import OFV.Proofs.C07DCp
 import OFV.Proofs.C07DoubleComm
 import OFV.Proofs.C07DCMain
 import OFV.Proofs.C07TermInfo
+import OFV.Proofs.C07BosonAdj
 import OFV.Proofs.C07BCH8
 import OFV.Proofs.C07BCHExp
 import OFV.Proofs.C07BCHUniv
@@ -446,6 +447,27 @@ theorem hc_boson_term_sound (t t₁ t₂ : List (Nat × Nat)) (j : Nat) (e : Spe
     hcTermF (t₁ ++ t₂) = hcTermF t₂ ++ hcTermF t₁ ∧
     hcTermF [(j, 1)] = [(j, 0)] ∧ hcTermF [(j, 0)] = [(j, 1)] :=
   ⟨hcBoson_key_sound t e, hcTermF_append t₁ t₂, rfl, rfl⟩
+
+/-- **`hc_boson_adjoint`**: the key stored by `hermitian_conjugated(BosonOperator)` is the Hilbert-space
+adjoint.  On the polynomial (Bargmann) representation of the Spec (`b†_j = x_j·`, `b_j = ∂_j`) with the
+Fock inner product `⟨x^e, x^e'⟩ = δ_{e e'} Π e_i!` (in which `x^e / √(Π e_i!)` are the orthonormal number
+states), every matrix element of a ladder word `t` and of the stored key `sorted(reverse-and-flip(t))`
+satisfy `⟨x^{e1}, t x^{e0}⟩ = ⟨t† x^{e1}, x^{e0}⟩`, for all canonical exponent vectors `e0`, `e1`
+(unbounded occupation numbers, any number of modes).  `melB t e_in e_out` is the coefficient of
+`x^{e_out}` in `t x^{e_in}`; the weights are `Π e_i!`. -/
+theorem hc_boson_adjoint (t : List (Nat × Nat)) (ht : ∀ f ∈ t, f.2 ≤ 1) (e0 e1 : Spec.Mono)
+    (h0 : Spec.trimZeros e0 = e0) (h1 : Spec.trimZeros e1 = e1) :
+    Proofs.C07A.melB t e0 e1 * GQ.ofInt (Proofs.C06B.wfact e1 : Int) =
+      Proofs.C07A.melB (sortF (hcTermF t)) e1 e0 * GQ.ofInt (Proofs.C06B.wfact e0 : Int) := by
+  have hk : Proofs.C07A.melB (sortF (hcTermF t)) e1 e0 = Proofs.C07A.melB (hcTermF t) e1 e0 := by
+    unfold Proofs.C07A.melB; rw [hcBoson_key_sound t e1]
+  rw [hk]
+  exact Proofs.C07A.melB_adjoint t ht e0 e1 h0 h1
+
+example : Proofs.C07A.melB [(0, 1), (0, 1), (1, 0)] [1, 2] [3, 1] = 2 ∧
+    Proofs.C07A.melB (sortF (hcTermF [(0, 1), (0, 1), (1, 0)])) [3, 1] [1, 2] = 6 ∧
+    Proofs.C06B.wfact [3, 1] = 6 ∧ Proofs.C06B.wfact [1, 2] = 2 := by
+  refine ⟨by decide +kernel, by decide +kernel, by decide, by decide⟩
 
 /-- QuadOperator branch: `q_j`, `p_j` are self-adjoint, so the involution is word reversal; the stored
 key `sorted(reversed(t))` denotes the reversed word for every `ħ` and every monomial. -/
